@@ -109,6 +109,8 @@ impl<'a> SegmentQueryRunner<'a> {
         schema: Arc<BatchSchema>,
         sender: BatchSender,
     ) -> Result<(), FlowOperatorError> {
+        #[cfg(feature = "sim-hooks")]
+        crate::sim_hooks::gate("read.seg.start", String::new()).await;
         let query_ctx = QueryContext::from_command(&self.plan.command);
         let candidate_zones = self.hydrate_zones(&query_ctx).await;
         let eval_limit = self.determine_eval_limit(&query_ctx);
